@@ -672,7 +672,13 @@ fn run_case(cid: &str, min_len: u64, ops: Option<Vec<Op>>, g: Option<&mut Gen>, 
                 viol.push(format!("C02:placement-grew-file-although-a-hole-fits step={step} op={} need={need} hole={before_hole}", op.show()));
             }
         }
-        if !viol.is_empty() {
+        // keep the first violation of each property and go on: a broken extent invariant (C02) or an
+        // error with effect (C13) often only damages region contents (C01) some steps later
+        {
+            let mut seen: std::collections::BTreeSet<String> = std::collections::BTreeSet::new();
+            viol.retain(|v| seen.insert(v.split(':').next().unwrap_or("").to_string()));
+        }
+        if viol.iter().any(|v| v.starts_with("C01:")) || viol.len() >= 3 {
             break;
         }
     }
